@@ -31,6 +31,7 @@ class World:
         self.cprov = {}  # class -> (must, may) class-level provides
         self.narrowed = False
         self.mutated_after_dependents = False
+        self.fac = {}    # id(obj) -> interfaces the (callable) object *implements as a factory*
 
     # -- model ---------------------------------------------------------------
     def closure(self, ifs):
@@ -141,6 +142,12 @@ class World:
                     ctx.violation('providedBy-disagree', {'obj': o.zname, 'iface': nm(i)})
             # closure level only: a directly declared interface that is implied by
             # another directly declared one may legitimately be folded away
+            if id(o) in self.fac:
+                ctx.ev()
+                f = set(implementedBy(o).flattened()) | {Interface}
+                if f != self.closure(self.fac[id(o)]):
+                    ctx.violation('factory-declaration', {'obj': o.zname, 'got': self.names(f),
+                                                          'expected': self.names(self.closure(self.fac[id(o)]))})
             d = self.closure(directlyProvidedBy(o))
             ctx.ev()
             if not (self.closure(self.M.get(id(o), [])) <= d <= self.closure(self.Y.get(id(o), []))):
@@ -203,13 +210,13 @@ class World:
     def step(self):
         rng, ctx = self.rng, self.ctx
         ops = ['newcls', 'newcls', 'newobj', 'newobj', 'ci', 'ci', 'cio', 'cif', 'dp', 'dp', 'dp',
-               'ap', 'ap', 'nlp', 'deco', 'decoonly', 'provider', 'gc']
+               'ap', 'ap', 'nlp', 'deco', 'decoonly', 'provider', 'gc', 'factory']
         op = rng.choice(ops)
         if op == 'newcls' or not self.classes:
             k = rng.choice([0, 1, 1, 2, 2, 3])
             bases = tuple(rng.sample(self.classes, min(k, len(self.classes))))
             try:
-                c = type('C%d' % len(self.classes), bases or (object,), {})
+                c = type('C%d' % len(self.classes), bases or (object,), {'__call__': lambda self_: None})
             except TypeError:
                 return
             how = rng.choice(['plain', 'plain', 'deco', 'decoonly'])
@@ -235,6 +242,18 @@ class World:
         if op == 'gc':
             gc.collect()
             ctx.op('gc')
+        elif op == 'factory':
+            # a callable *instance* declared as a factory: says what its products implement, and is stored in the
+            # instance's own __dict__; it changes nothing about what the instance itself (or a super proxy of it)
+            # provides
+            ctx.op(op, o.zname, nm(ifs))
+            if rng.random() < 0.7:
+                implementer(*ifs)(o)
+                self.fac[id(o)] = list(ifs)
+            elif id(o) not in self.fac:
+                implementedBy(o)          # merely asked: an empty factory declaration is stored on the instance
+                self.fac[id(o)] = []
+            ctx.count('factory_declarations_on_instances')
         elif op == 'ci':
             self.declare_cls(c, ifs)
             ctx.op(op, c.__name__, nm(ifs))
